@@ -11,7 +11,6 @@ import (
 	"fmt"
 	"io"
 	"runtime/debug"
-	"sort"
 	"strings"
 
 	"github.com/maruel/panicparse/v2/internal/verifx/h"
@@ -64,11 +63,13 @@ func alphabet(crlf bool) []sym {
 		if en == nil {
 			en = always
 		}
-		if l.Indent == "" && strings.HasPrefix(text, bfsIndent) {
-			// A text that itself starts with the indentation P is, inside a dump indented
-			// by P, indistinguishable from a P-carrying line: not offered there.
+		if l.Indent == "" && text != "" && (text[0] == ' ' || text[0] == '\t') {
+			// A text that itself starts with the dump's indentation is, inside that dump,
+			// indistinguishable from an indentation-carrying line: not offered there.
 			inner := en
-			en = func(m *rline.Model, c bfsCaps) bool { return m.Indent == "" && inner(m, c) }
+			en = func(m *rline.Model, c bfsCaps) bool {
+				return !(m.Indent != "" && strings.HasPrefix(text, m.Indent)) && inner(m, c)
+			}
 		}
 		out = append(out, sym{name: name, l: l, enabled: en})
 	}
@@ -178,6 +179,23 @@ func alphabet(crlf bool) []sym {
 	add("P.OTHER", "hello", rline.OTHER, pOK, ind(nil))
 	add("P.BLANK", "", rline.BLANK, pOK, ind(nil))
 	add("P-1.FILE", "\t/a/b.go:10 +0x1", rline.FILE, func(m *rline.Model, _ bfsCaps) bool { return m.Indent == bfsIndent }, func(l *rline.Line) { l.Indent = " " })
+	// a second indentation family: one tab
+	tOK := func(m *rline.Model, _ bfsCaps) bool { return m.St == rline.L || m.Indent == "\t" }
+	tab := func(f func(*rline.Line)) func(*rline.Line) {
+		return func(l *rline.Line) {
+			l.Indent = "\t"
+			if f != nil {
+				f(l)
+			}
+		}
+	}
+	add("T.HDR1", "goroutine 1 [running]:", rline.HDR, func(m *rline.Model, c bfsCaps) bool {
+		return tOK(m, c) && !(m.St == rline.B && len(m.Gs) >= c.G)
+	}, tab(hdr(1, "running")))
+	add("T.FUNC", "main.main()", rline.FUNC, func(m *rline.Model, c bfsCaps) bool { return tOK(m, c) && funcOK(m, c) }, tab(nil))
+	add("T.FILE", "\t/a/b.go:10 +0x1", rline.FILE, tOK, tab(nil))
+	add("T.BLANK", "", rline.BLANK, tOK, tab(nil))
+	add("T.OTHER", "hello", rline.OTHER, tOK, tab(nil))
 	// unterminated variants (only as the last line)
 	noeol := func(f func(*rline.Line)) func(*rline.Line) {
 		return func(l *rline.Line) {
@@ -502,36 +520,71 @@ func passThrough(calls []callObs) []byte {
 }
 
 // lineDiff explains the difference between the expected pass-through (indexes of
-// lines of the stream) and the observed bytes, as missing / extra line indexes.
+// lines of the stream) and the observed bytes, as missing / extra line indexes,
+// by a longest-common-subsequence alignment of lines.
 func lineDiff(lines []rline.Line, expect []int, observed []byte) (missing, extra []int, garbled bool) {
-	// greedy in-order matching of stream lines against the observed bytes
-	got := map[int]bool{}
-	o := observed
-	for i, l := range lines {
-		lb := l.Bytes()
-		if bytes.HasPrefix(o, lb) {
-			// prefer to match an expected line; a non expected line is matched only if the
-			// bytes cannot be explained by the next expected line
-			got[i] = true
-			o = o[len(lb):]
+	obsLines := splitLines(observed)
+	exp := make([][]byte, len(expect))
+	for i, idx := range expect {
+		exp[i] = lines[idx].Bytes()
+	}
+	n, m := len(exp), len(obsLines)
+	// lcs[i][j] = LCS length of exp[i:], obs[j:]
+	lcs := make([][]int, n+1)
+	for i := range lcs {
+		lcs[i] = make([]int, m+1)
+	}
+	for i := n - 1; i >= 0; i-- {
+		for j := m - 1; j >= 0; j-- {
+			if bytes.Equal(exp[i], obsLines[j]) {
+				lcs[i][j] = lcs[i+1][j+1] + 1
+			} else if lcs[i+1][j] >= lcs[i][j+1] {
+				lcs[i][j] = lcs[i+1][j]
+			} else {
+				lcs[i][j] = lcs[i][j+1]
+			}
 		}
 	}
-	if len(o) != 0 {
-		garbled = true
+	used := map[int]bool{}
+	for _, idx := range expect {
+		used[idx] = true
 	}
-	exp := map[int]bool{}
-	for _, i := range expect {
-		exp[i] = true
-		if !got[i] {
-			missing = append(missing, i)
+	i, j := 0, 0
+	var extraLines [][]byte
+	for i < n && j < m {
+		switch {
+		case bytes.Equal(exp[i], obsLines[j]):
+			i++
+			j++
+		case lcs[i+1][j] >= lcs[i][j+1]:
+			missing = append(missing, expect[i])
+			i++
+		default:
+			extraLines = append(extraLines, obsLines[j])
+			j++
 		}
 	}
-	for i := range got {
-		if !exp[i] {
-			extra = append(extra, i)
+	for ; i < n; i++ {
+		missing = append(missing, expect[i])
+	}
+	for ; j < m; j++ {
+		extraLines = append(extraLines, obsLines[j])
+	}
+	// name the extra lines by the first unexpected stream line with the same bytes
+	for _, el := range extraLines {
+		found := false
+		for k, l := range lines {
+			if !used[k] && bytes.Equal(l.Bytes(), el) {
+				extra = append(extra, k)
+				used[k] = true
+				found = true
+				break
+			}
+		}
+		if !found {
+			garbled = true
 		}
 	}
-	sort.Ints(extra)
 	return
 }
 
